@@ -10,7 +10,9 @@
 (*     context outcome only exists after the context ended,                 *)
 (*   - every header read is the metadata set before the headers were        *)
 (*     flushed (or nothing, once the client's context ended), headers never *)
-(*     change once flushed; asserted trailer reads are the final trailer,   *)
+(*     change once flushed; asserted trailer reads are the final trailer;   *)
+(*     a handler that carries on after it has seen a cancellation changes   *)
+(*     nothing the client can observe,                                      *)
 (*   - the server receives exactly the client's messages, in order,         *)
 (*   - the grammar has no dead end: a script can always be finished.        *)
 (***************************************************************************)
@@ -41,7 +43,11 @@ OkMeansAll == (st.term.has /\ st.src = "server" /\ st.term.code = "OK" /\ Multi(
 TerminalUnique == prev.term.has => (st.term = prev.term /\ st.src = prev.src /\ st.msgs = prev.msgs)
 TermSource == /\ st.src = "server" => (st.ret /\ st.term = StatusSeen(st.rcode, st.rv) /\ (st.cx # "no" => st.retAtCx))
               /\ st.src = "ctx" => (st.cx # "no" /\ st.term.code = st.cx)
-HeaderReads == \A h \in Range(st.hdrs) : IF st.cx = "no" THEN st.hsent /\ h = st.hvis ELSE h \in {st.hvis, NoMD}
+HeaderReads == \A h \in Range(st.hdrs) : IF st.cx = "no" THEN st.hsent /\ h = st.hvis ELSE h \in {st.hvis, NoMD} \cup st.hlate
+\* once the handler has seen a cancellation nothing it does changes what the client can observe
+QuietAfterSeenCancel == prev.sawCx => /\ HdrOpts(st) \subseteq HdrOpts(prev) /\ Len(st.inflight) <= Len(prev.inflight)
+                                      /\ st.hvis = prev.hvis /\ st.hsent = prev.hsent /\ st.hlate = prev.hlate /\ st.hs = prev.hs
+                                      /\ st.retAtCx = prev.retAtCx
 HeaderFrozen == prev.hsent => (st.hsent /\ st.hvis = prev.hvis)
 TrailerReads == \A t \in Range(st.trls) : IF st.src = "server" THEN t = st.tr ELSE t = AnyMD
 ServerGotClientMsgs == LET got == SelectSeq(st.srecv, LAMBDA r : r.v > 0) IN
